@@ -349,3 +349,16 @@ contract("specs.ldapmsg:thm_rt_referrals",
                    # the decoder's postcondition about the list it built (contracts/decode.py, _unpack_ldap_result)
                    "len(nth_rest(c_ref, count)) == 0", "forall(k, 0, count, len(nth_rest(c_ref, k)) > 0)"],
          ensures=["count == n", "implies(0 <= q and q < n, unutf8(content_of(nth_rest(c_ref, q))) == unutf8(utf8(xs[q])))"])
+contract("specs.ldapmsg:lemma_octs_enc_nth",
+         requires=["octs_enc(s, xs, i, n, cls, num)", "0 <= i", "i <= q", "q < n", "n <= len(xs)"],
+         ensures=["content_of(nth_rest(s, q - i)) == xs[q]"], decreases="q - i")
+contract("specs.ldapmsg:lemma_octs_enc_end",
+         requires=["octs_enc(s, xs, i, n, cls, num)", "0 <= i", "i <= n", "n <= len(xs)"],
+         ensures=["len(nth_rest(s, n - i)) == 0"], decreases="n - i")
+contract("specs.ldapmsg:lemma_octs_enc_nonempty",
+         requires=["octs_enc(s, xs, i, n, cls, num)", "0 <= i", "i <= q", "q < n", "n <= len(xs)"],
+         ensures=["len(nth_rest(s, q - i)) > 0"], decreases="q - i")
+contract("specs.ldapmsg:thm_rt_octs",
+         requires=["octs_enc(c, xs, 0, n, 0, 4)", "0 <= n", "n <= len(xs)", "0 <= count",
+                   "len(nth_rest(c, count)) == 0", "forall(k, 0, count, len(nth_rest(c, k)) > 0)"],
+         ensures=["count == n", "implies(0 <= q and q < n, content_of(nth_rest(c, q)) == xs[q])"])
